@@ -1,6 +1,7 @@
 // irflow: abstract interpreter — see interp.h
 #include "interp.h"
 #include "norm.h"
+static inline int64_t sextBits(uint64_t x, int bits) { return bits >= 64 ? (int64_t)x : (int64_t)(x << (64 - bits)) >> (64 - bits); }
 #include "llvm/IR/IntrinsicInst.h"
 #include "llvm/IR/InlineAsm.h"
 #include "llvm/IR/Constants.h"
@@ -283,6 +284,17 @@ AV Interp::load(const AV &p, int n, bool fp, int align, int src) {
   return peek(p.region, p.off, n, fp);
 }
 void Interp::store(const AV &p, const AV &v, int n, int align, int src) {
+  if (p.k == AV::T && TT.t[p.t].op == TT.OP_SELECT) { // store through a pointer chosen by a data-dependent condition: each candidate cell keeps its value unless chosen
+    const Term x = TT.t[p.t]; AV c = avOfTerm(x.a[0]), pa = avOfTerm(x.a[1]), pb = avOfTerm(x.a[2]);
+    auto okp = [&](const AV &q) { return q.k == AV::PTR || (q.k == AV::T && TT.t[q.t].op == TT.OP_SELECT); };
+    if (okp(pa) && okp(pb)) {
+      bool m = monitor; monitor = false; AV oa = load(pa, n, v.fp, 1, src); monitor = m;
+      store(pa, select(c, v, oa), n, align, src);
+      monitor = false; AV ob = load(pb, n, v.fp, 1, src); monitor = m;
+      store(pb, select(c, ob, v), n, align, src);
+      return;
+    }
+  }
   if (p.k != AV::PTR || p.region < 0 || p.region >= (int)S.R.size()) { err(p.k == AV::TOP || p.k == AV::T ? "store through data-dependent address" : "store via non-pointer"); return; }
   Region &G = S.R[p.region];
   if (p.off < 0 || p.off + n > G.size) {
@@ -301,6 +313,115 @@ void Interp::store(const AV &p, const AV &v, int n, int align, int src) {
   AV vv = v; vv.bytes = n;
   int c = newCell(vv, n, src);
   for (int i = 0; i < n; i++) { G.bytes[p.off + i] = {c, i}; G.written[p.off + i] = 1; }
+}
+
+AV Interp::ptrAdd(const AV &p, int64_t off) {
+  if (p.k == AV::PTR) return AV::Ptr(p.region, p.off + off);
+  if (p.k == AV::T && TT.t[p.t].op == TT.OP_SELECT) {
+    const Term x = TT.t[p.t]; AV a = ptrAdd(avOfTerm(x.a[1]), off), b = ptrAdd(avOfTerm(x.a[2]), off);
+    if (a.k == AV::TOP || b.k == AV::TOP) return AV::Top(8);
+    return select(avOfTerm(x.a[0]), a, b);
+  }
+  return AV::Top(8);
+}
+// An integer that is a select tree over constants (an index chosen by data-dependent comparisons, e.g. a pivot row)
+// denotes finitely many values: f is applied to each and the results are recombined under the same conditions.
+// the same for a pointer that is a select tree over concrete pointers (std::find over a row of data-dependent 0/1 entries)
+AV Interp::liftPtr(const AV &p, const std::function<AV(const AV &)> &f, int &budget, std::map<int, bool> *assume) {
+  if (--budget < 0) return AV::Top(8);
+  if (p.k == AV::PTR) return f(p);
+  if (!isPtrSel(p)) return AV::Top(8);
+  // reuse the integer machinery on an index tree: leaves are numbered, conditions are shared
+  std::vector<AV> leaves; std::function<int(int)> enc = [&](int t) -> int {
+    const Term x = TT.t[t];
+    if (x.op == TT.OP_PTR) { leaves.push_back(AV::Ptr(x.a[0], x.k)); return TT.cint((int64_t)leaves.size() - 1, 8); }
+    if (x.op == TT.OP_SELECT) { int a = enc(x.a[1]), b = enc(x.a[2]); if (a < 0 || b < 0) return -1; return TT.mk(TT.OP_SELECT, {x.a[0], a, b}, 0, 8); }
+    return -1; };
+  int it = enc(p.t); if (it < 0) return AV::Top(8);
+  return liftIndex(AV::Tm(it, 8), [&](int64_t k) { return (k >= 0 && k < (int64_t)leaves.size()) ? f(leaves[k]) : AV::Top(8); }, budget, assume);
+}
+static bool isBoolAtomOp(const Term &x) { const std::string &on = OPS.name(x.op); return x.bytes == 1 && (on.compare(0, 5, "icmp.") == 0 || on.compare(0, 5, "fcmp.") == 0 || x.op == TT.OP_NOT || x.op == TT.OP_GAND || x.op == TT.OP_GOR || x.op == TT.OP_TRUNC1 || on == "bit" || on == "signbit"); }
+bool Interp::isChoiceTree(int t, int &budget, bool &hasSelect) {
+  if (--budget < 0) return false;
+  const Term &x = TT.t[t];
+  if (x.op == TT.OP_C) return true;
+  if (x.op == TT.OP_UNDEF || x.op == TT.OP_CF) return true;
+  if (x.op == TT.OP_SYM || x.op == TT.OP_PTR || x.op == TT.OP_TOP || x.op == TT.OP_RATC) return false;
+  if (x.op == TT.OP_SELECT) { hasSelect = true; return isChoiceTree(x.a[1], budget, hasSelect) && isChoiceTree(x.a[2], budget, hasSelect); }
+  if (x.bytes > 8 || x.a.empty() || x.a.size() > 8) return false;
+  if (x.op == TT.OP_FADD || x.op == TT.OP_FSUB || x.op == TT.OP_FMUL || x.op == TT.OP_FDIV || x.op == TT.OP_FNEG || x.op == TT.OP_FABS || x.op == TT.OP_SQRT || x.op == TT.OP_FMA || x.op == TT.OP_FMULADD) return false;
+  std::vector<int> as = x.a; bool all = true; for (int a : as) if (!isChoiceTree(a, budget, hasSelect)) { all = false; break; }
+  if (all) return true;
+  if (isBoolAtomOp(x)) { hasSelect = true; return true; } // a data comparison used as 0/1: a two-way choice
+  return false;
+}
+AV Interp::simplifyChoice(const AV &v, bool isBool) {
+  if (v.k != AV::T) return v;
+  int b1 = 200; bool hs = false; if (!isChoiceTree(v.t, b1, hs) || !hs) return v;
+  int budget = 512; std::map<int, bool> assume; int by = v.bytes;
+  AV r = liftIndex(v, [&](int64_t k) { return isBool ? AV::Int((k & 1) ? -1 : 0, 1) : AV::Int(k, by); }, budget, &assume);
+  return r.k == AV::TOP ? v : r;
+}
+// An integer that is a select tree over constants (an index chosen by data-dependent comparisons, e.g. a pivot row)
+// denotes finitely many values: f is applied to each and the results are recombined under the same conditions.
+// `assume` carries the truth values fixed by the enclosing branches, so that infeasible combinations are not produced.
+AV Interp::liftIndex(const AV &idx, const std::function<AV(int64_t)> &f, int &budget, std::map<int, bool> *assume) {
+  if (--budget < 0) return AV::Top(8);
+  if (idx.k == AV::INT) return f(idx.i);
+  if (idx.k != AV::T) return AV::Top(8);
+  const Term x = TT.t[idx.t];
+  if (x.op == TT.OP_C) return f(x.k);
+  if (x.op == TT.OP_CF) { double d = TT.cfval(idx.t); uint64_t b; if (x.bytes == 4) { float fl = (float)d; uint32_t u; memcpy(&u, &fl, 4); b = u; } else memcpy(&b, &d, 8); return f((int64_t)b); } // a floating constant leaf travels as its bit pattern (only comparisons consume it)
+  if (x.op == TT.OP_SYM || x.op == TT.OP_PTR || x.op == TT.OP_TOP) return AV::Top(8);
+  if (x.op == TT.OP_SELECT) {
+    // the condition may be a compound of atoms (and/or/not/select of comparisons): evaluate it under the assumptions made by the
+    // enclosing branches; if undetermined, split on one of its undetermined atoms and look at this select again
+    std::map<int, bool> local; std::map<int, bool> *as = assume ? assume : &local;
+    int undet = -1;
+    std::function<int(int)> ev = [&](int c) -> int { // 1 true, 0 false, -1 unknown
+      const Term &y = TT.t[c];
+      if (y.op == TT.OP_C) return (y.k & 1) ? 1 : 0;
+      if (y.op == TT.OP_NOT) { int v = ev(y.a[0]); return v < 0 ? -1 : !v; }
+      if (y.op == TT.OP_XOR && y.bytes == 1 && y.a.size() == 2 && TT.t[y.a[0]].op == TT.OP_C) { int v = ev(y.a[1]); return v < 0 ? -1 : ((TT.t[y.a[0]].k & 1) ? !v : v); }
+      if (y.op == TT.OP_SELECT && y.bytes == 1) { int c0 = ev(y.a[0]); if (c0 >= 0) return ev(y.a[c0 ? 1 : 2]); int p = ev(y.a[1]), q = ev(y.a[2]); return (p == q && p >= 0) ? p : -1; }
+      if (y.op == TT.OP_GAND || (y.op == TT.OP_AND && y.bytes == 1)) { int res = 1; for (int a : y.a) { int v = ev(a); if (v == 0) return 0; if (v < 0) res = -1; } return res; }
+      if (y.op == TT.OP_GOR || (y.op == TT.OP_OR && y.bytes == 1)) { int res = 0; for (int a : y.a) { int v = ev(a); if (v == 1) return 1; if (v < 0) res = -1; } return res; }
+      auto it = as->find(c); if (it != as->end()) return it->second ? 1 : 0;
+      if (undet < 0) undet = c;
+      return -1; };
+    int cv = ev(x.a[0]);
+    if (cv >= 0) return liftIndex(avOfTerm(x.a[cv ? 1 : 2]), f, budget, as);
+    if (undet < 0) return AV::Top(8);
+    int atom = undet;
+    (*as)[atom] = true; AV a = liftIndex(idx, f, budget, as);
+    (*as)[atom] = false; AV b = a.k == AV::TOP ? a : liftIndex(idx, f, budget, as);
+    as->erase(atom);
+    if (a.k == AV::TOP) return a; if (b.k == AV::TOP) return b;
+    if (a.k == AV::UNDEF) return b; if (b.k == AV::UNDEF) return a; // an uninitialised alternative is unreachable in a defined execution
+    return select(AV::Tm(atom, 1), a, b);
+  }
+  if (x.op == TT.OP_UNDEF) return AV::Undef(x.bytes);
+  bool intArgs = true; { int b2 = 64; bool hs = false; for (int a : x.a) if (!isChoiceTree(a, b2, hs)) intArgs = false; }
+  if (isBoolAtomOp(x) && !intArgs) { // a truth value used as an integer (zext/sext of a data comparison): the two cases of the comparison
+    AV c = AV::Tm(idx.t, 1); auto l = litOf(c);
+    if (assume) { auto it = assume->find(l.first); if (it != assume->end()) return f((it->second == l.second) ? -1 : 0); }
+    if (assume) (*assume)[l.first] = l.second;
+    AV a = f(-1);
+    if (assume) (*assume)[l.first] = !l.second;
+    AV b = a.k == AV::TOP ? a : f(0);
+    if (assume) assume->erase(l.first);
+    if (a.k == AV::TOP) return a; if (b.k == AV::TOP) return b; return select(c, a, b);
+  }
+  if (x.bytes > 8 || x.a.empty() || x.a.size() > 8) return AV::Top(8);
+  auto evalOp = [&](const std::vector<int64_t> &vals, int64_t &out) -> bool {
+    std::vector<int> as; for (size_t i = 0; i < vals.size(); i++) as.push_back(TT.cint(vals[i], TT.t[x.a[i]].bytes));
+    int t = TT.mk(x.op, as, x.k, x.bytes); std::unordered_map<int, uint64_t> m; uint64_t v;
+    if (!evalBits(t, 0, m, v)) return false; out = sextBits(v, x.bytes * 8); return true; };
+  std::vector<int64_t> vals;
+  std::function<AV(size_t)> over = [&](size_t i) -> AV {
+    if (i == x.a.size()) { int64_t o; return evalOp(vals, o) ? f(o) : AV::Top(8); }
+    return liftIndex(avOfTerm(x.a[i]), [&](int64_t u) { vals.push_back(u); AV r = over(i + 1); vals.pop_back(); return r; }, budget, assume); };
+  return over(0);
 }
 
 // ================================================================ constants and values
@@ -396,7 +517,6 @@ VV Interp::get(Frame &F, const Value *V) {
 
 // ================================================================ scalar operations
 static inline uint64_t maskBits(int bits) { return bits >= 64 ? ~0ULL : ((1ULL << bits) - 1); }
-static inline int64_t sextBits(uint64_t x, int bits) { return bits >= 64 ? (int64_t)x : (int64_t)(x << (64 - bits)) >> (64 - bits); }
 AV Interp::binop(unsigned opc, const AV &a, const AV &b, int bits) {
   int by = (bits + 7) / 8; if (!by) by = 1;
   if (a.k == AV::INT && b.k == AV::INT && bits > 64) { err("constant arithmetic wider than 64 bits"); return AV::Top(by); }
@@ -541,6 +661,7 @@ AV Interp::fcmp(CmpInst::Predicate P, const AV &a, const AV &b) {
 AV Interp::select(const AV &c, const AV &a, const AV &b) {
   if (c.k == AV::INT) return (c.i & 1) ? a : b;
   if (a == b) return a;
+  if (a.k == AV::INT && b.k == AV::INT && a.bytes == 1 && b.bytes == 1 && c.k == AV::T && c.bytes == 1 && ((a.i ^ b.i) & 1)) return (a.i & 1) ? c : AV::Tm(TT.mk(TT.OP_NOT, {c.t}, 0, 1), 1); // select(c,true,false) == c
   if (c.k == AV::TOP) return AV::Top(a.bytes);
   if (c.k == AV::UNDEF) return AV::Top(a.bytes);
   auto l = litOf(c);
@@ -791,15 +912,31 @@ bool Interp::step(Function &Fn, Frame &F, Instruction &I, Guard &guard) {
   if (auto *GEP = dyn_cast<GetElementPtrInst>(&I)) {
     VV basev = get(F, GEP->getPointerOperand()); unsigned n = leafCount(GEP->getType()); VV out;
     for (unsigned l = 0; l < n; l++) {
-      AV base = basev.size() == 1 ? basev[0] : basev[l]; int64_t off = base.off; bool ok = base.k == AV::PTR;
-      for (auto GTI = gep_type_begin(GEP), E = gep_type_end(GEP); GTI != E && ok; ++GTI) {
+      AV base = basev.size() == 1 ? basev[0] : basev[l]; bool baseOk = base.k == AV::PTR || isPtrSel(base);
+      struct Step { AV idx; bool isStruct; StructType *st; int64_t esz; }; std::vector<Step> steps; bool symbolic = false;
+      for (auto GTI = gep_type_begin(GEP), E = gep_type_end(GEP); GTI != E; ++GTI) {
         VV iv = get(F, GTI.getOperand()); AV idx = iv.size() == 1 ? iv[0] : iv[l];
-        if (idx.k != AV::INT) { ok = false; break; }
-        if (StructType *ST = GTI.getStructTypeOrNull()) off += DL->getStructLayout(ST)->getElementOffset(idx.i);
-        else off += idx.i * (int64_t)DL->getTypeAllocSize(GTI.getIndexedType());
+        StructType *ST = GTI.getStructTypeOrNull(); steps.push_back({idx, ST != nullptr, ST, ST ? 0 : (int64_t)DL->getTypeAllocSize(GTI.getIndexedType())});
+        if (idx.k != AV::INT) symbolic = true;
       }
-      if (!ok) { if (base.k == AV::PTR) { if (getenv("IRFLOW_DEBUG")) { std::string str; raw_string_ostream os(str); I.print(os); fprintf(stderr, "GEP: %s\n", str.c_str()); for (auto GTI = gep_type_begin(GEP), E = gep_type_end(GEP); GTI != E; ++GTI) { VV iv = get(F, GTI.getOperand()); fprintf(stderr, "   idx kind=%d term=%s\n", (int)iv[0].k, iv[0].k == AV::T ? TT.str(iv[0].t).c_str() : ""); } } err("data-dependent address (GEP index is not a constant)"); } else err("GEP on non-pointer"); }
-      out.push_back(ok ? AV::Ptr(base.region, off) : AV::Top(8));
+      AV res = AV::Top(8);
+      if (baseOk) {
+        int budget = 4096; std::map<int, bool> assume;
+        std::function<AV(size_t, int64_t)> go = [&](size_t i, int64_t off) -> AV {
+          if (i == steps.size()) return ptrAdd(base, off);
+          const Step &st = steps[i];
+          auto adv = [&](int64_t v) -> AV { return go(i + 1, off + (st.isStruct ? (int64_t)DL->getStructLayout(st.st)->getElementOffset(v) : v * st.esz)); };
+          if (st.idx.k == AV::INT) return adv(st.idx.i);
+          if (st.isStruct) return AV::Top(8);
+          return liftIndex(st.idx, adv, budget, &assume);
+        };
+        res = go(0, 0);
+      }
+      if (res.k == AV::TOP) {
+        if (baseOk) { if (getenv("IRFLOW_DEBUG")) { std::string str; raw_string_ostream os(str); I.print(os); fprintf(stderr, "GEP: %s\n", str.c_str()); for (auto &st : steps) fprintf(stderr, "   idx kind=%d term=%s\n", (int)st.idx.k, st.idx.k == AV::T ? TT.str(st.idx.t).c_str() : ""); } err("data-dependent address (GEP index is not a constant or a finite choice of constants)"); }
+        else err("GEP on non-pointer");
+      } else if (symbolic) symbolicIndexGeps++;
+      out.push_back(res);
     }
     F.env[&I] = out; return true;
   }
@@ -835,14 +972,14 @@ bool Interp::step(Function &Fn, Frame &F, Instruction &I, Guard &guard) {
       }
       F.env[&I] = r; return true;
     }
-    VV r; for (auto &v : s) r.push_back(castv(C, v));
+    VV r; for (auto &v : s) r.push_back(DT->getScalarType()->isIntegerTy() ? simplifyChoice(castv(C, v), DT->getScalarSizeInBits() == 1) : castv(C, v));
     F.env[&I] = r; return true;
   }
   if (auto *L = dyn_cast<LoadInst>(&I)) {
     AV p = get(F, L->getPointerOperand())[0]; Type *T = L->getType(); int al = (int)L->getAlign().value(); int src = monitor ? srcOf(I) : -1;
     std::vector<std::pair<Type *, int64_t>> lay; leafLayout(T, 0, lay);
     VV r;
-    if (p.k == AV::T && TT.t[p.t].op == TT.OP_SELECT && lay.size() == 1) { Type *ET = lay[0].first; AV v = load(p, sbytes(ET), ET->isFloatingPointTy(), al, src); F.env[&I] = VV{v}; return true; }
+    if (p.k == AV::T && TT.t[p.t].op == TT.OP_SELECT) { bool first = true; for (auto &lf : lay) { Type *ET = lf.first; int sz = sbytes(ET); if (ET->isIntegerTy(1)) sz = 1; AV v = load(ptrAdd(p, lf.second), sz, ET->isFloatingPointTy(), first ? al : 1, src); if (ET->isIntegerTy(1)) v = v.k == AV::INT ? AV::Int(v.i & 1 ? -1 : 0, 1) : (v.k == AV::T ? AV::Tm(TT.mk(TT.OP_TRUNC1, {v.t}, 0, 1), 1) : v); r.push_back(v); first = false; } F.env[&I] = r; return true; }
     if (p.k != AV::PTR) { err(p.k == AV::TOP || p.k == AV::T ? "load through data-dependent address" : "load via non-pointer"); F.env[&I] = VV(lay.size(), AV::Top(sbytes(T))); return true; }
     // one access record for the whole load (alignment applies to the first byte)
     if (lay.size() > 1) { int64_t total = DL->getTypeStoreSize(T); Region &G = S.R[p.region]; if (p.off < 0 || p.off + total > G.size) { if (monitor) find("oob-load", p.region, p.off, (int)total, al, src, "region size " + std::to_string(G.size)); else err("out-of-region load in an unmonitored stage (" + G.name + ")"); F.env[&I] = VV(lay.size(), AV::Top(sbytes(T))); return true; } }
@@ -862,8 +999,9 @@ bool Interp::step(Function &Fn, Frame &F, Instruction &I, Guard &guard) {
   }
   if (auto *St = dyn_cast<StoreInst>(&I)) {
     AV p = get(F, St->getPointerOperand())[0]; VV v = get(F, St->getValueOperand()); Type *T = St->getValueOperand()->getType(); int al = (int)St->getAlign().value(); int src = srcOf(I);
-    if (p.k != AV::PTR) { err(p.k == AV::TOP || p.k == AV::T ? "store through data-dependent address" : "store via non-pointer"); return true; }
     std::vector<std::pair<Type *, int64_t>> lay; leafLayout(T, 0, lay);
+    if (isPtrSel(p)) { for (size_t i = 0; i < lay.size() && i < v.size(); i++) { Type *ET = lay[i].first; int sz = sbytes(ET); if (ET->isIntegerTy(1)) sz = 1; AV x = v[i]; if (ET->isIntegerTy(1) && x.k == AV::INT) x = AV::Int(x.i & 1, 1); store(ptrAdd(p, lay[i].second), x, sz, i == 0 ? al : 1, src); } return true; }
+    if (p.k != AV::PTR) { err(p.k == AV::TOP || p.k == AV::T ? "store through data-dependent address" : "store via non-pointer"); return true; }
     if (lay.size() > 1) { int64_t total = DL->getTypeStoreSize(T); Region &G = S.R[p.region]; if (p.off < 0 || p.off + total > G.size) { if (monitor) find("oob-store", p.region, p.off, (int)total, al, src, "region size " + std::to_string(G.size)); else err("out-of-region store in an unmonitored stage (" + G.name + ")"); return true; } }
     for (size_t i = 0; i < lay.size() && i < v.size(); i++) {
       Type *ET = lay[i].first; int sz = sbytes(ET); if (ET->isIntegerTy(1)) sz = 1;
@@ -875,7 +1013,14 @@ bool Interp::step(Function &Fn, Frame &F, Instruction &I, Guard &guard) {
   if (auto *B = dyn_cast<BinaryOperator>(&I)) {
     if (auto *FPO = dyn_cast<FPMathOperator>(&I)) if (FPO->getFastMathFlags().any()) err("fast-math flag on " + std::string(I.getOpcodeName()));
     VV a = get(F, B->getOperand(0)), b = get(F, B->getOperand(1)); VV r; unsigned bits = B->getType()->getScalarSizeInBits();
-    for (unsigned i = 0; i < a.size(); i++) r.push_back(binop(B->getOpcode(), a[i], b[i], bits));
+    for (unsigned i = 0; i < a.size(); i++) {
+      if (B->getOpcode() == Instruction::Sub && (isPtrSel(a[i]) || isPtrSel(b[i])) && (a[i].k == AV::PTR || isPtrSel(a[i])) && (b[i].k == AV::PTR || isPtrSel(b[i]))) { // pointer difference
+        int budget = 512; std::map<int, bool> assume; AV bb = b[i];
+        AV d = liftPtr(a[i], [&](const AV &pa) { return liftPtr(bb, [&](const AV &pb) { return pa.region == pb.region ? AV::Int(pa.off - pb.off, 8) : AV::Top(8); }, budget, &assume); }, budget, &assume);
+        if (d.k != AV::TOP) { r.push_back(d); continue; }
+      }
+      r.push_back(B->getType()->getScalarType()->isIntegerTy() ? simplifyChoice(binop(B->getOpcode(), a[i], b[i], bits), bits == 1) : binop(B->getOpcode(), a[i], b[i], bits));
+    }
     F.env[&I] = r; return true;
   }
   if (auto *U = dyn_cast<UnaryOperator>(&I)) {
@@ -887,13 +1032,13 @@ bool Interp::step(Function &Fn, Frame &F, Instruction &I, Guard &guard) {
   if (auto *IC = dyn_cast<ICmpInst>(&I)) {
     VV a = get(F, IC->getOperand(0)), b = get(F, IC->getOperand(1)); VV r;
     unsigned bits = IC->getOperand(0)->getType()->getScalarType()->isPointerTy() ? 64 : IC->getOperand(0)->getType()->getScalarSizeInBits();
-    for (unsigned i = 0; i < a.size(); i++) r.push_back(icmp(IC->getPredicate(), a[i], b[i], bits));
+    for (unsigned i = 0; i < a.size(); i++) r.push_back(simplifyChoice(icmp(IC->getPredicate(), a[i], b[i], bits), true));
     F.env[&I] = r; return true;
   }
   if (auto *FC = dyn_cast<FCmpInst>(&I)) {
     if (FC->getFastMathFlags().any()) err("fast-math flag on fcmp");
     VV a = get(F, FC->getOperand(0)), b = get(F, FC->getOperand(1)); VV r;
-    for (unsigned i = 0; i < a.size(); i++) r.push_back(fcmp(FC->getPredicate(), a[i], b[i]));
+    for (unsigned i = 0; i < a.size(); i++) r.push_back(simplifyChoice(fcmp(FC->getPredicate(), a[i], b[i]), true));
     F.env[&I] = r; return true;
   }
   if (auto *SI = dyn_cast<SelectInst>(&I)) {
